@@ -190,6 +190,7 @@ func (e *ExecutionEngine) Execute(ctx context.Context, operation *graphql.Reques
 				astvalidation.DirectivesAreInValidLocations(),
 				astvalidation.DirectivesAreUniquePerLocation(),
 				astvalidation.DirectivesAreDefined(),
+				astvalidation.VariableUniqueness(),
 				astvalidation.StreamAppliedToListFieldsOnly()),
 		)
 		if err != nil {
